@@ -29,19 +29,38 @@
           before the epilogue).  Units in a skipped group keep their physical lines and
           have no other effect: their probes are not seen, their #line and #include
           directives are not executed.  A #line in a processed group works as anywhere.  1
-   x line ending LF / CRLF / CR, with or without a terminator on the last line.
+   x line ending LF / CRLF / CR, with or without a terminator on the last line
+   x how the file ends (trunc): "none" = the epilogue `return 0; }`; or the file is CUT OFF, so that the
+     compiler has to report an error at the end of input:
+       "body"   the last line is a statement, the function body is never closed            tail unit X   1 line
+       "invoc"  an invocation of M whose argument list is never closed, over 2 lines       tail unit TV  2
+       "dir"    the last line is a directive with an incomplete operand (`#if 1 +`)         tail unit TD  1
+     In every cut-off file the last physical line holds a token.
 
    Level A (C11 5.1.1.2, 6.10.4, 6.10.8.1): the position of a token is the
      physical line of its first character in its own file; after `#line n` on
      physical line d the line d+1+k is presumed to be n+k; __FILE__ is the
      presumed name; a probe produced by a macro takes the position of the
      macro name of the invocation; a #line inside a header ends with the header.
+     The same position is the position of the TOKEN for everything done with it later (diagnostics of
+     the parser, debug line records): a #line directive governs the lines that FOLLOW it, up to the next
+     one; it never changes the position of a token that precedes it.
+     The end of input is a position too (pseudo-probe EOF of the main file): it lies behind the last
+     character of the last physical line L, so a diagnostic attached to it names the presumed number of
+     L or that number + 1 (the line a further character would be on once L is terminated) - never a
+     line that no position of the file has.
 
    Level I (tokenize.c / preprocess.c): read_file's final newline,
      canonicalize_newline, remove_backslash_newline with its deferred newlines,
      the comment skipping of tokenize, add_line_numbers (count of '\n' before
      the token in the transformed buffer), File.line_delta / display_name set
-     by read_line_marker, line_macro/file_macro through `origin`.
+     by read_line_marker, line_macro/file_macro through `origin`; preprocess2 stamps the File's
+     current line_delta on every token it passes through and preprocess_pp_tokens adds it to line_no at
+     the end (field pline: what the parser and codegen see), whereas __LINE__ is computed at expansion
+     time (field line).  The EOF token is a token of add_line_numbers' list: it is numbered (count of
+     '\n' in the whole buffer + 1, i.e. L + 1 after read_file's final newline) but never stamped with a
+     delta, and the three end-of-input diagnostics (parser at EOF; read_macro_arg_one "premature end of
+     input" at EOF; a directive operand error at copy_line's new_eof copy of EOF) print its line_no.
      Characters are abstract: "x" a token without interest, "c" comment text,
      "<" ">" "/" comment delimiters, "\\" "\n" "\r", everything else is a token
      with a payload (probe, directive).
@@ -60,6 +79,12 @@
    strict invariant (RecordedLineDev = 0) with LineOff = 1, and SameAll
    (continuation-line probes included).  LineOff = 0 with RecordedLineDev = 0
    is the repaired design (Lines_repaired.cfg).
+   Recorded in the fifth round (finding C18-eof-ignores-line): because the EOF token is never stamped,
+     a diagnostic at the end of input of a file whose end is governed by a #line prints the PHYSICAL
+     L + 1 (RecordedEofDev; EofStamp = FALSE transcribes it; Lines_repaired.cfg: EofStamp = TRUE).
+   Further controls: DeltaStamp = "file" (the delta is taken from the File when preprocessing is over,
+     not stamped per token: positions BEFORE a #line shift) and NumberEof = FALSE (add_line_numbers
+     stops at the EOF token: line 0) must both be rejected.
    LineInGroupFix = FALSE transcribes read_line_marker before its repair: the
    operands of #line were macro-replaced by preprocess(), which ends with the
    "unterminated conditional directive" test and so rejects a #line written
@@ -75,6 +100,11 @@ CONSTANTS MaxLen,        \* units per main file (between the fixed prologue and 
           LineOff,       \* what read_line_marker does: the line after `#line n` is presumed to be n + LineOff
                          \* (1 = the tree as it is: delta = n - line of the directive; 0 = repaired; 2 = control)
           LineInGroupFix,  \* TRUE: #line inside an open conditional is executed; FALSE: the file is rejected (control)
+          Truncs,        \* subset of {"none", "body", "invoc", "dir"}: how the main file ends
+          DeltaStamp,    \* "token": preprocess2 stamps the File's current delta on each token (the tree); "file": control
+          NumberEof,     \* TRUE: add_line_numbers numbers the EOF token (the tree); FALSE: control (line 0)
+          EofStamp,      \* FALSE: the EOF token never gets a delta (the tree as it is); TRUE: repaired
+          RecordedEofDev,  \* TRUE: tolerate exactly "physical L + 1 at an end of input governed by #line" (finding); FALSE once repaired
           RecordedLineDev, \* the deviation recorded as finding D16-line and tolerated by SameButRecorded (1; 0 once repaired)
           Emit
 
@@ -87,7 +117,7 @@ HdrUnits(name) ==
     [] name = "hl.h" -> <<"P", "L50", "P", "K2", "P">>
     [] name = "mac.h" -> <<"B", "DO">>
 IsInc(k) == k \in DOMAIN Hdr
-NPhys(k) == CASE k \in {"CS", "K2", "KP", "SN", "SP", "MB", "MC", "MK"} -> 2 [] k \in {"K3", "SN3", "V", "MT"} -> 3 [] OTHER -> 1
+NPhys(k) == CASE k \in {"CS", "K2", "KP", "SN", "SP", "MB", "MC", "MK", "TV"} -> 2 [] k \in {"K3", "SN3", "V", "MT"} -> 3 [] OTHER -> 1
 (* physical-line offsets of the probes of a unit, and the suffix that tells them apart *)
 ProbeOffs(k) == CASE k \in {"P", "U", "V", "W"} -> <<0>> [] k \in {"KP", "SP"} -> <<1>>
                   [] k \in {"MB", "MC", "MK"} -> <<0, 1>> [] k = "MT" -> <<0, 1, 2>> [] OTHER -> <<>>
@@ -124,7 +154,17 @@ WalkA(units, i, phys, base, name, tag, grp, acc) ==
        THEN WalkA(units, i + 1, phys + 1, base, name, tag, grp,
                   WalkA(HdrUnits(Hdr[k]), 1, 1, <<>>, Hdr[k], Hdr[k], <<>>, acc))
        ELSE WalkA(units, i + 1, phys + NPhys(k), base, name, tag, grp, acc)
-RunA(units) == WalkA(units, 1, 1, <<>>, "main.c", "m", <<>>, <<>>)
+(* the end of input of the main file: L = its last physical line, under the #line in force there
+   (directives of headers end with the header; directives in skipped groups are not executed) *)
+EndA(units) ==
+  LET r == FoldLeft(LAMBDA st, k :
+                      IF k \in GrpKinds THEN [st EXCEPT !.phys = @ + 1, !.grp = GrpNext(@, k)]
+                      ELSE IF Active(st.grp) /\ LineArg(k) > 0
+                      THEN [st EXCEPT !.phys = @ + 1, !.base = <<LineArg(k), st.phys>>, !.name = IF k = "F" THEN "foo.c" ELSE @]
+                      ELSE [st EXCEPT !.phys = @ + NPhys(k)],
+                    [phys |-> 1, base |-> <<>>, name |-> "main.c", grp |-> <<>>], units)
+  IN [id |-> "EOF", line |-> Presumed(r.base, r.phys - 1), file |-> r.name, k |-> "EOF", g |-> r.base # <<>>, phys |-> r.phys - 1]
+RunA(units) == Append(WalkA(units, 1, 1, <<>>, "main.c", "m", <<>>, <<>>), EndA(units))
 
 (* ---- file contents as abstract characters -------------------------------- *)
 UnitLines(k, tag, u) ==       \* physical lines, without terminators
@@ -148,6 +188,8 @@ UnitLines(k, tag, u) ==       \* physical lines, without terminators
     [] IsInc(k) -> << <<"#I" \o k>> >>
     [] k \in {"L", "F", "L50"} -> << <<"#" \o k>> >>
     [] k \in GrpKinds -> << <<"#" \o k>> >>
+    [] k = "TV" -> << <<"x">>, <<"x">> >>        \* M( / "id"   and the file ends
+    [] k = "TD" -> << <<"#TD">> >>              \* #if 1 +      and the file ends
 EolChars(e) == CASE e = "LF" -> <<"\n">> [] e = "CRLF" -> <<"\r", "\n">> [] e = "CR" -> <<"\r">>
 Flatten(ss) == FoldLeft(LAMBDA acc, s : acc \o s, <<>>, ss)
 PhysLines(units, tag) == Flatten([u \in DOMAIN units |-> UnitLines(units[u], tag, u)])
@@ -186,24 +228,38 @@ Tokens(buf) ==
                  ELSE IF ch \in Special THEN st1
                  ELSE [st1 EXCEPT !.toks = Append(@, [t |-> ch, line |-> st.n])],
                [toks |-> <<>>, n |-> 1, mode |-> ""], buf)
-  IN r.toks
+  IN Append(r.toks, [t |-> "EOF", line |-> IF NumberEof THEN r.n ELSE 0])     \* add_line_numbers' do-while reaches the terminating NUL
 TokenizeFile(units, tag, eol, final) == Tokens(Unsplice(Canon(ReadFile(Chars(units, tag, eol, final)))))
 
 (* probe id -> unit kind (ghost, only to tag the emitted records) *)
 KindIn(all, x) == IF \E i \in DOMAIN all : all[i].id = x THEN all[CHOOSE i \in DOMAIN all : all[i].id = x].k ELSE "?"
 
-(* preprocess2 over the tokens of one file: st = [delta, dname, out, ci, skip, rej]
+(* preprocess2 over the tokens of one file: st = [delta, dname, out, ci, skip, rej, key]
+   key = <<include depth, Len(out) when the file was entered>> identifies the File object among the records
+   (two Files can share a key only if the first produced no record).
+   A record: line = what __LINE__ gives (line_no + the File's delta at expansion time); pline = what the
+   parser and codegen see (line_no + the delta STAMPED on the token when it passed through preprocess2).
    ci = the cond_incl entries (`included` flags) opened in this file; skip = 0, or 1 + the number of conditionals
    opened inside the group being skipped (skip_cond_incl / skip_cond_incl2); rej = the file was rejected *)
 IsDir(t) == SubSeq(t, 1, 1) = "#"
-Rejected == <<[id |-> "REJECTED", line |-> 0, file |-> "", k |-> "?"]>>
+Rejected == <<[id |-> "REJECTED", line |-> 0, pline |-> 0, file |-> "", k |-> "?"]>>
+(* the end of a File: (control DeltaStamp = "file") every token of this File gets the delta the File holds NOW;
+   the EOF token of the main file reaches the parser (include_file drops a header's): it was numbered by
+   add_line_numbers and is passed through without a stamp (EofStamp: with the File's delta) *)
+EndOfFile(st, eofline) ==
+  LET restamped == IF DeltaStamp = "token" THEN st.out
+                   ELSE [j \in DOMAIN st.out |-> IF st.out[j].key = st.key THEN [st.out[j] EXCEPT !.pline = st.out[j].raw + st.delta] ELSE st.out[j]]
+      l == eofline + (IF EofStamp THEN st.delta ELSE 0)
+  IN IF st.key[1] > 0 THEN restamped
+     ELSE Append(restamped, [id |-> "EOF", line |-> l, pline |-> l, raw |-> eofline, key |-> st.key, file |-> st.dname, k |-> "EOF"])
 RECURSIVE PP(_, _, _, _, _, _)
 PP(toks, i, st, eol, final, kindOf) ==
   IF st.rej THEN Rejected
   ELSE IF i > Len(toks) THEN st.out
   ELSE LET t == toks[i].t
            ln == toks[i].line IN
-       IF st.skip > 0          \* skip_cond_incl: only the nesting is tracked
+       IF t = "EOF" THEN EndOfFile(st, ln)
+       ELSE IF st.skip > 0          \* skip_cond_incl: only the nesting is tracked
        THEN PP(toks, i + 1,
                IF t \in {"#G1", "#G0"} THEN [st EXCEPT !.skip = @ + 1]
                ELSE IF t = "#GX" THEN (IF st.skip = 1 THEN [st EXCEPT !.skip = 0, !.ci = SubSeq(@, 1, Len(@) - 1)] ELSE [st EXCEPT !.skip = @ - 1])
@@ -216,12 +272,13 @@ PP(toks, i, st, eol, final, kindOf) ==
        ELSE IF t = "#GX"
        THEN PP(toks, i + 1, [st EXCEPT !.ci = SubSeq(@, 1, Len(@) - 1)], eol, final, kindOf)
        ELSE IF ~IsDir(t)          \* a probe, directly or through M: line_macro/file_macro via origin
-       THEN PP(toks, i + 1, [st EXCEPT !.out = Append(@, [id |-> t, line |-> ln + st.delta, file |-> st.dname, k |-> KindIn(kindOf, t)])], eol, final, kindOf)
-       ELSE IF t = "#D" THEN PP(toks, i + 1, st, eol, final, kindOf)
+       THEN PP(toks, i + 1, [st EXCEPT !.out = Append(@, [id |-> t, line |-> ln + st.delta, pline |-> ln + st.delta, raw |-> ln, key |-> st.key,
+                                                       file |-> st.dname, k |-> KindIn(kindOf, t)])], eol, final, kindOf)
+       ELSE IF t \in {"#D", "#TD"} THEN PP(toks, i + 1, st, eol, final, kindOf)     \* #TD: its error is raised at a copy of the next token, EOF
        ELSE IF SubSeq(t, 1, 2) = "#I"
        THEN LET k == SubSeq(t, 3, Len(t))
                 h == Hdr[k]
-                sub == PP(TokenizeFile(HdrUnits(h), h, eol, final), 1, [delta |-> 0, dname |-> h, out |-> st.out, ci |-> <<>>, skip |-> 0, rej |-> FALSE,
+                sub == PP(TokenizeFile(HdrUnits(h), h, eol, final), 1, [delta |-> 0, dname |-> h, out |-> st.out, ci |-> <<>>, skip |-> 0, rej |-> FALSE, key |-> <<st.key[1] + 1, Len(st.out)>>,
                                                                             open |-> st.open \/ st.ci # <<>>], eol, final, kindOf)      \* cond_incl is one list for all files
             IN PP(toks, i + 1, [st EXCEPT !.out = sub, !.rej = (sub = Rejected)], eol, final, kindOf)
        ELSE \* read_line_marker: start->file->line_delta = tok->val - start->line_no; before the repair it ran
@@ -232,11 +289,12 @@ PP(toks, i, st, eol, final, kindOf) ==
                                           !.rej = ~LineInGroupFix /\ (st.ci # <<>> \/ st.open)], eol, final, kindOf)
 
 RunI(units, eol, final) ==
-  PP(TokenizeFile(units, "m", eol, final), 1, [delta |-> 0, dname |-> "main.c", out |-> <<>>, ci |-> <<>>, skip |-> 0, rej |-> FALSE, open |-> FALSE], eol, final, RunA(units))
+  PP(TokenizeFile(units, "m", eol, final), 1, [delta |-> 0, dname |-> "main.c", out |-> <<>>, ci |-> <<>>, skip |-> 0, rej |-> FALSE, open |-> FALSE, key |-> <<0, 0>>], eol, final, RunA(units))
 
 (* ---- scenarios ------------------------------------------------------------ *)
 Prologue == <<"X", "D", "IM", "X">> \o [j \in 1..Pad |-> "C"]   \* prototypes; #define M; #include "mac.h"; int main(void) {; padding
 Epilogue == <<"X">>                  \* return 0; }
+TailOf(trunc) == CASE trunc = "invoc" -> <<"TV">> [] trunc = "dir" -> <<"TD">> [] OTHER -> Epilogue    \* "body": a statement, and no `}`
 (* conditional groups are well nested: s = [#else seen] per open group; bad once a #else / #endif has no group to belong to *)
 Nest(b) == FoldLeft(LAMBDA st, k :
                       IF st.bad THEN st
@@ -246,11 +304,11 @@ Nest(b) == FoldLeft(LAMBDA st, k :
                       ELSE st,
                     [bad |-> FALSE, s |-> <<>>], b)
 Bodies == {b \in UNION {[1..n -> Kinds] : n \in 1..MaxLen} : ~Nest(b).bad}
-ScSet == {[body |-> b, eol |-> e, final |-> f] : b \in Bodies, e \in Eols, f \in BOOLEAN}
+ScSet == {[body |-> b, eol |-> e, final |-> f, trunc |-> t] : b \in Bodies, e \in Eols, f \in BOOLEAN, t \in Truncs}
 ScSeq == SetToSeq(ScSet)
 Chosen == {i \in DOMAIN ScSeq : ((i % Stride) * (7919 % Stride) + Seed) % Stride = 0}   \* = (i*7919 + Seed) % Stride, without 32-bit overflow
 Closers(b) == [j \in 1..Len(Nest(b).s) |-> "GX"]              \* the groups still open are closed before the epilogue
-UnitsOf(s) == Prologue \o s.body \o Closers(s.body) \o Epilogue
+UnitsOf(s) == Prologue \o s.body \o Closers(s.body) \o TailOf(s.trunc)
 
 VARIABLES sc, resA, resI, done
 vars == <<sc, resA, resI, done>>
@@ -259,7 +317,7 @@ Init == sc \in {ScSeq[i] : i \in Chosen} /\ resA = <<>> /\ resI = <<>> /\ done =
 Eval == /\ ~done /\ done' = TRUE /\ sc' = sc
         /\ resA' = RunA(UnitsOf(sc))
         /\ resI' = RunI(UnitsOf(sc), sc.eol, sc.final)
-        /\ IF Emit THEN CSVWrite("%1$s", <<ToJson([body |-> sc.body, eol |-> sc.eol, final |-> sc.final,
+        /\ IF Emit THEN CSVWrite("%1$s", <<ToJson([body |-> sc.body, eol |-> sc.eol, final |-> sc.final, trunc |-> sc.trunc,
                                                     exp |-> resA', nphys |-> Len(PhysLines(UnitsOf(sc), "m")), pad |-> Pad])>>, IOEnv.OUT)
            ELSE TRUE
 Next == Eval
@@ -267,17 +325,26 @@ Spec == Init /\ [][Next]_vars
 
 -----------------------------------------------------------------------------
 (* the tree as it is: Level A up to exactly the two recorded deviations *)
+DirectKinds == {"P", "KP", "MB", "MC", "MK", "MT"}     \* probes written directly in a file, not on a continuation line
 SameButRecorded ==
   done => /\ Len(resI) = Len(resA)
           /\ \A i \in DOMAIN resA :
                /\ resI[i].id = resA[i].id
                /\ resI[i].file = resA[i].file
-               /\ \/ resA[i].k = "SP"
+               /\ \/ resA[i].k \in {"SP", "EOF"}
                   \/ resI[i].line = resA[i].line + (IF resA[i].g THEN RecordedLineDev ELSE 0)
+               \* the position the parser and codegen see: a token written directly in the file keeps its position
+               /\ \/ resA[i].k \notin DirectKinds
+                  \/ resI[i].pline = resA[i].line + (IF resA[i].g THEN RecordedLineDev ELSE 0)
+               \* the end of input: the last line or the one after it - up to the recorded deviation
+               /\ \/ resA[i].k # "EOF"
+                  \/ IF resA[i].g /\ RecordedEofDev
+                     THEN resI[i].pline = resA[i].phys + 1
+                     ELSE resI[i].pline - (IF resA[i].g THEN RecordedLineDev ELSE 0) \in {resA[i].line, resA[i].line + 1}
 (* the same probes are seen, in the same order (comments swallow exactly what they should) *)
 SameProbes == done => [i \in DOMAIN resI |-> resI[i].id] = [i \in DOMAIN resA |-> resA[i].id]
 (* control: with the continuation-line probes included the levels differ (finding D16) *)
 SameAll == done => /\ Len(resI) = Len(resA)
                    /\ \A i \in DOMAIN resA : resI[i].id = resA[i].id /\ resI[i].file = resA[i].file
-                                               /\ resI[i].line = resA[i].line + (IF resA[i].g THEN RecordedLineDev ELSE 0)
+                                               /\ (resA[i].k = "EOF" \/ resI[i].line = resA[i].line + (IF resA[i].g THEN RecordedLineDev ELSE 0))
 =============================================================================
